@@ -65,6 +65,9 @@ pub trait SFTMap {
     unsafe fn clear(&self, address: Address);
 }
 
+#[cfg(all(mmtk_verif, target_pointer_width = "64"))]
+pub use space_map::SFTSpaceMap;
+
 pub(crate) fn create_sft_map() -> Box<dyn SFTMap> {
     cfg_if::cfg_if! {
         if #[cfg(target_pointer_width = "64")] {
@@ -272,6 +275,20 @@ mod space_map {
                 let extent = 1 << vm_layout().log_space_extent;
                 (start, start.add(extent))
             }
+        }
+    }
+
+    /// Verification hooks: the private index arithmetic of the space map.
+    #[cfg(mmtk_verif)]
+    impl SFTSpaceMap {
+        pub fn verif_addr_to_index(addr: Address) -> usize {
+            Self::addr_to_index(addr)
+        }
+        pub fn verif_table_len(&self) -> usize {
+            self.sft.len()
+        }
+        pub fn verif_index_to_space_range(i: usize) -> (Address, Address) {
+            Self::index_to_space_range(i)
         }
     }
 
